@@ -11,6 +11,9 @@ type Violation struct {
 	Key    string          `json:"key"`
 	Detail string          `json:"detail"`
 	Replay json.RawMessage `json:"replay"` // what the worker needs to re-execute exactly this case
+	// Sampled marks findings of a sampling pass (the free-running -race pass): a report is sound by
+	// itself, so it is confirmed when it recurs at least once in the 5 replays rather than in all of them.
+	Sampled bool `json:"sampled,omitempty"`
 }
 
 // ShardResult is what one worker process reports.
